@@ -1,3 +1,152 @@
+/-
+C18 — Analysis compares only complete, equal-length runs and averages correctly.
+Property theorems only (helper lemmas live in `Lemmas/C18.lean`; model and spec in `Model/C18.lean`).
+
+Reading of the statement (see `notes/C18.md`):
+* `whereFinS`   — "keeps exactly those pairing groups that have one evaluation for every compared level, drops or
+                   truncates evaluations to the requested length, changes no remaining value, leaves the four
+                   tables mutually consistent";
+* `rawLearnersS`— "for every learner and x exactly the per-environment progressive, windowed or final averages of y
+                   that a direct computation from the interaction rows gives";
+* `movingAverageS` — the textbook definition for every span and weighting.
+`filterFin true` is the code with `fixes/C18-group-p-duplicate-level.diff`; `filterFin false` the unchanged code.
+-/
 import CobaVerif.Lemmas.C18
+
 namespace Coba.C18
+
+/-! ### moving_average -/
+
+/-- Wherever the textbook moving average is defined (no window of total weight 0) `moving_average` returns it:
+every span (`None`, 0, 1, …, ≥ len), unweighted, weighted and exponential. -/
+theorem moving_average_eq_spec (vs : List Rat) (span : Option Nat) (w : Weights) (out : List Rat)
+    (h : movingAverageS vs span w = .ok out) : movingAverage vs span w = .ok out :=
+  moving_average_eq_spec' vs span w out h
+
+/-- Outside the shortcut `span == 1` with explicit weights the two agree as partial functions, error
+(`ZeroDivisionError`, the `assert`) included. -/
+theorem moving_average_eq_spec_full (vs : List Rat) (span : Option Nat) (w : Weights)
+    (h : span ≠ some 1 ∨ w = .none ∨ w = .exp) : movingAverage vs span w = movingAverageS vs span w :=
+  moving_average_eq_spec_full' vs span w h
+
+example : movingAverageS [1, 2, 3, 5] (some 2) .none = .ok [1, 3/2, 5/2, 4] := by decide +kernel
+
+/-! ### `_remove` -/
+
+/-- On an interaction table sorted by its id columns, for distinct ids that all occur, the three nested
+bisects with the moving cursor select exactly the row numbers — hence exactly the rows — whose id triple is
+not in `ids` (`cut` is the `n` argument; every listed evaluation has at most `cut` rows, as at both call sites). -/
+theorem remove_eq_filter (rows : List IRow) (ids : List Triple) (cut : Nat) (hs : SortedIds rows) (hnd : ids.Nodup)
+    (hpres : ∀ t ∈ ids, t ∈ rows.map IRow.triple)
+    (hcut : cut = 0 ∨ ∀ t ∈ ids, (rows.map IRow.triple).count t ≤ cut) :
+    ∃ sel, remove (rows.map IRow.triple) ids cut = .ok sel ∧
+      sel = (List.range rows.length).filter (fun i => (rows[i]?).any (fun r => !(ids.contains r.triple))) ∧
+      selectRows rows sel = rows.filter (fun r => !(ids.contains r.triple)) :=
+  remove_eq_filter' rows ids cut hs hnd hpres hcut
+
+/-! ### `_group_p` -/
+
+/-- The repaired keep rule is the property's: a group is kept iff it has exactly one evaluation at every
+compared level. -/
+theorem group_keep_rule (levels : List Key) (hl : levels.Nodup) (g : List Idx) (hsub : ∀ i ∈ g, i.l ∈ levels) :
+    groupKeep true levels.length g = true ↔ ∀ lv ∈ levels, (g.filter (fun i => i.l = lv)).length = 1 :=
+  groupKeep_fixed_iff levels hl g hsub
+
+/-- `_group_p` (repaired): exactly the rows of the complete `p`-groups survive, each as it was, and exactly
+the parameter rows they refer to. -/
+theorem group_p_spec (r : Result) (lc pc : List Col) (ix : List Idx) (hs : SortedIds r.ints) (hu : UniqueIds r)
+    (hix : mkIndexes r lc pc ((runs r.ints).map (·.1)) = .ok ix) :
+    groupP true r lc pc = .ok (restrictTables r (groupPIntsS r.ints ix)) :=
+  groupP_eq r lc pc ix hs hu hix
+
+/-- The unchanged `_group_p` (`len(group) == n_levels`) does the same *provided* no level occurs twice inside a
+`p`-group — the forced hypothesis. -/
+theorem group_p_spec_partial (r : Result) (lc pc : List Col)
+    (hnd : ∀ ix, mkIndexes r lc pc ((runs r.ints).map (·.1)) = .ok ix → ∀ g ∈ groupsOf ix, (g.map (·.l)).Nodup) :
+    groupP false r lc pc = groupP true r lc pc :=
+  groupP_legacy_eq r lc pc hnd
+
+/-- The witness of C18-F1: environments 0,1; learners 0,1; evaluators 0,1; environment 0 was evaluated for learner 0
+under both evaluators and never for learner 1. -/
+def cexResult : Result :=
+  { envs := [⟨0, [0]⟩, ⟨1, [0]⟩], lrns := [⟨0, []⟩, ⟨1, []⟩], evals := [⟨0, []⟩, ⟨1, []⟩],
+    ints := [⟨0, 0, 0, 1, 1⟩, ⟨0, 0, 1, 1, 3⟩, ⟨1, 1, 0, 1, 2⟩] }
+
+example : SortedIds cexResult.ints ∧ UniqueIds cexResult ∧ IdxWF cexResult.ints ∧ Consistent cexResult := by
+  unfold Consistent; decide
+
+/-- Without the hypothesis the unchanged rule is wrong: on `cexResult` with `l='learner_id'`, `p='environment_id'`
+it keeps environment 0 (two evaluations = two levels) although learner 1 is missing there; the property
+(`whereFinS`) keeps nothing. -/
+theorem group_p_duplicate_counterexample :
+    filterFin false cexResult none (some ([.lid], [.eid])) =
+        .ok { envs := [⟨0, [0]⟩], lrns := [⟨0, []⟩], evals := [⟨0, []⟩, ⟨1, []⟩],
+              ints := [⟨0, 0, 0, 1, 1⟩, ⟨0, 0, 1, 1, 3⟩] } ∧
+      whereFinS cexResult none (some ([.lid], [.eid])) = .ok { envs := [], lrns := [], evals := [], ints := [] } ∧
+      filterFin true cexResult none (some ([.lid], [.eid])) = .ok { envs := [], lrns := [], evals := [], ints := [] } := by
+  refine ⟨?_, ?_, ?_⟩ <;> decide +kernel
+
+/-! ### `_global_n` -/
+
+/-- `_global_n(n)`: evaluations shorter than `n` are dropped, the others cut to their first `n` rows
+(`'min'`: all cut to the shortest length), nothing else changes, parameter rows follow. -/
+theorem global_n_spec (r : Result) (n : NSpec) (hn : n ≠ .k 0) (hs : SortedIds r.ints) (hu : UniqueIds r)
+    (hw : IdxWF r.ints) (hrefs : RefsPresent r) (hall : AllReferenced r) :
+    globalN r n = .ok (restrictTables r (globalNIntsS r.ints n)) :=
+  global_n_spec' r n hn hs hu hw hrefs hall
+
+/-- after `n='min'` every surviving evaluation has the same length -/
+theorem global_n_equal_lengths (ints : List IRow) (m : Nat) (ms : List Nat)
+    (h : (runs ints).map (fun g => g.2.length) = m :: ms) :
+    ∀ g ∈ runs ints, (g.2.take (minOf m ms)).length = minOf m ms :=
+  min_equal_lengths ints m ms h
+
+/-! ### `where_fin` / `filter_fin` -/
+
+/-- `where_fin(n,l,p)` (repaired) is exactly its specification, for every well-formed Result, every choice of
+`l`/`p` columns and every `n`.  (`lp = none`, i.e. `l = p = None`, cannot drop unreferenced parameter rows, so
+there the input must already have none.) -/
+theorem filter_fin_eq_spec (r : Result) (n : Option NSpec) (lp : Option (List Col × List Col))
+    (hs : SortedIds r.ints) (hu : UniqueIds r) (hw : IdxWF r.ints) (hrefs : RefsPresent r)
+    (hall : lp = none → AllReferenced r) :
+    filterFin true r n lp = whereFinS r n lp :=
+  filterFin_eq_spec r n lp hs hu hw hrefs hall
+
+/-- the four tables of the result are mutually consistent: every id an interaction row refers to is present in
+its parameter table and every parameter row is referred to -/
+theorem filter_fin_consistent (r r' : Result) (n : Option NSpec) (lp : Option (List Col × List Col))
+    (hs : SortedIds r.ints) (hu : UniqueIds r) (hw : IdxWF r.ints) (hrefs : RefsPresent r)
+    (hall : lp = none → AllReferenced r) (h : filterFin true r n lp = .ok r') : Consistent r' :=
+  filter_fin_consistent' r r' n lp hs hu hw hrefs hall h
+
+/-- no remaining value changes: with or without the repair, on any input whatsoever, every row of every
+output table is a row of the corresponding input table -/
+theorem values_unchanged (fixed : Bool) (r r' : Result) (n : Option NSpec) (lp : Option (List Col × List Col))
+    (h : filterFin fixed r n lp = .ok r') :
+    (∀ x ∈ r'.ints, x ∈ r.ints) ∧ (∀ p ∈ r'.envs, p ∈ r.envs) ∧ (∀ p ∈ r'.lrns, p ∈ r.lrns) ∧
+      (∀ p ∈ r'.evals, p ∈ r.evals) :=
+  filterFin_rows fixed r r' n lp h
+
+/-- … and on well-formed input order and multiplicity are kept too (each output table is a sublist) -/
+theorem values_unchanged_sublist (r r' : Result) (n : Option NSpec) (lp : Option (List Col × List Col))
+    (hs : SortedIds r.ints) (hu : UniqueIds r) (hw : IdxWF r.ints) (hrefs : RefsPresent r)
+    (hall : lp = none → AllReferenced r) (h : filterFin true r n lp = .ok r') :
+    r'.ints.Sublist r.ints ∧ r'.envs.Sublist r.envs ∧ r'.lrns.Sublist r.lrns ∧ r'.evals.Sublist r.evals :=
+  filter_fin_sublist' r r' n lp hs hu hw hrefs hall h
+
+/-! ### `raw_learners` -/
+
+/-- `_grouped_ys` — the insertion-ordered dict of lists filled from `moving_average` / `mean` — reports for every
+`(l, x)` exactly the list of directly computed averages (progressive, windowed, or final), on any Result. -/
+theorem grouped_ys_eq_spec (r : Result) (lc : List Col) (x : XSpec) (span : Option Nat) :
+    groupedYs r lc x span = groupedYsS r lc x span :=
+  groupedYs_eq r lc x span
+
+/-- `raw_learners(x,y,l,p,span)` = `where_fin` as specified (to the minimal length when `x='index'`) followed by
+the direct averages; `CobaException` exactly when nothing is left. -/
+theorem raw_learners_eq_spec (r : Result) (x : XSpec) (lc : List Col) (pc : Option (List Col)) (span : Option Nat)
+    (hs : SortedIds r.ints) (hu : UniqueIds r) (hw : IdxWF r.ints) (hrefs : RefsPresent r) :
+    rawLearners true r x lc pc span = rawLearnersS r x lc pc span :=
+  rawLearners_eq_spec r x lc pc span hs hu hw hrefs
+
 end Coba.C18
